@@ -46,6 +46,16 @@ def specs(tier, seed):
                                       "what": "hostile"}],
                             "label": "%s/%s%d/%d" % (qt, kind, ord_, rep), "hs_limit_ms": 200000})
                 k += 1
+    # buffer edges, deterministically: at every dialogue step the FIRST reply the client sees is a matching, well-formed
+    # answer whose decoded payload has exactly the size of a receive buffer (or one byte less / more)
+    import hostile as _h
+    for si in range(len(_h.EDGE_SIZES) if tier != "quick" else 3):
+        for qt in (common.QTYPES if tier != "quick" else ["NULL", "PRIVATE", "TXT", "MX"]):
+            for (kind, ord_) in STEPS:
+                out.append({"seed": seed * 100000 + k, "sess": {"qtype": qt, "lazy": 1}, "pkts": PKTS, "dur_ms": 3000,
+                            "plan": [{"kind": kind, "k": ord_, "n": 3, "mode": "prepend", "what": "edge", "size_idx": [0, 2, 1][si] if si < 3 else si}],
+                            "label": "%s/edge%d/%s%d" % (qt, si, kind, ord_), "hs_limit_ms": 200000})
+                k += 1
     # raw UDP mode: the client's other receive path (4-byte raw header, no DNS parsing)
     for rep in range(2 if tier == "quick" else 12):
         for ord_ in range(5):
